@@ -188,8 +188,68 @@ def run(prop, seed, budget, ctx):
             if mode != "field":
                 ds = outcome(lambda: deserialization_schema(G[arg], with_schema=False, **kw_d)); ws = outcome(lambda: deserialization_schema(src_of(arg), with_schema=False))
                 if ds != ws: fail("schema-of-the-target-differs-from-the-schema-of-the-source", desc=desc, target=f"G[{arg.__name__}]", got=show(ds), want=show(ws))
+    # method / property serializers: the converter is "call the method / read the property on the value" - a subclass overriding it
+    # is converted through its override (serialize(T, v) == serialize(U, g(v)) with g dispatched on v)
+    from apischema.json_schema import serialization_schema as _ss
+    for i in range(30 * budget):
+        kind = rnd.choice(["method", "property"]); how = rnd.choice(["registered", "dynamic"])
+        deco = "    @serializer\n" if how == "registered" else ""
+        prop = "    @property\n" if kind == "property" else ""
+        text = ("from apischema import serializer\n"
+                f"class PB{i}:\n    def __init__(self, v=1): self.v = v\n{deco}{prop}    def as_int(self) -> int:\n        return self.v\n"
+                f"class PS{i}(PB{i}):\n{prop}    def as_int(self) -> int:\n        return self.v * 100\n"
+                f"class PP{i}(PB{i}):\n    pass\n")
+        from common import build_module as _bm
+        pm = _bm(text, f"propser{seed}_{i}"); Base, Sub, Plain = getattr(pm, f"PB{i}"), getattr(pm, f"PS{i}"), getattr(pm, f"PP{i}")
+        kw = {"conversion": Base.as_int} if how == "dynamic" else {}
+        desc = {"serializer": kind, "mode": how}
+        for cls, v, want in ((Base, Base(3), 3), (Plain, Plain(4), 4), (Sub, Sub(5), 500)):
+            for tp, val, exp in ((cls, v, want), (Base, v, want), (List[Base], [v], [want]), (Optional[Base], v, want)):
+                evaluations += 1; distinct.add(("propser", kind, how, cls.__name__[:2], str(tp)[:12]))
+                got = outcome(lambda: serialize(tp, val, **kw))
+                if got != ("ok", exp): fail("serialization-square", desc=desc, cls=cls.__name__, through=str(tp), got=show(got), want=exp)
+        hist["method/property-serializers"] += 1
+    # a dynamic conversion next to alternatives of a union that are not supported (hence dropped) - before or after the converted
+    # class, under Optional and containers: operations and schemas are those of the source / target
+    class Opaque: pass
+    for i in range(30 * budget):
+        Foo = dataclass(type(f"UF{i}", (), {"__annotations__": {"bar": int}}))
+        def foo_to_int(foo): return foo.bar
+        def foo_from_int(x): return Foo(x)
+        foo_to_int.__annotations__ = {"foo": Foo, "return": int}; foo_from_int.__annotations__ = {"x": int, "return": Foo}
+        order = rnd.choice(["unsupported-first", "unsupported-last", "unsupported-between"])
+        alts = {"unsupported-first": (Opaque, Foo), "unsupported-last": (Foo, Opaque), "unsupported-between": (Foo, Opaque, str)}[order]
+        U = Union[alts]
+        shapes = {"U": (U, lambda x: x, lambda sch: sch), "List[U]": (List[U], lambda x: [x], lambda sch: {"type": "array", "items": sch}),
+                  "Optional[U]": (Optional[U], lambda x: x, None), "Dict[str, U]": (Dict[str, U], lambda x: {"k": x}, lambda sch: {"type": "object", "additionalProperties": sch})}
+        sname = rnd.choice(sorted(shapes)); tp, wrapv, wraps = shapes[sname]
+        mode = rnd.choice(["dynamic", "field"])
+        desc = {"union": order, "shape": sname, "mode": mode}
+        evaluations += 1; distinct.add(("union-unsupported", order, sname, mode))
+        base_alts = [int] + ([str] if str in alts else [])
+        if mode == "field":
+            from apischema.metadata import conversion as conv_md
+            H = dataclass(type(f"UH{i}", (), {"__annotations__": {"x": tp}, "x": field(metadata=conv_md(deserialization=foo_from_int, serialization=foo_to_int))}))
+            Href = dataclass(type(f"UH{i}", (), {"__annotations__": {"x": eval(sname.replace("U", "B"), {"B": Union[tuple(base_alts)], "List": List, "Optional": Optional, "Dict": Dict, "str": str})}}))
+            a = outcome(lambda: serialize(H, H(wrapv(Foo(7))))); 
+            if a != ("ok", {"x": wrapv(7)}): fail("serialization-square", desc=desc, got=show(a), want={"x": wrapv(7)})
+            b = outcome(lambda: deserialize(H, {"x": wrapv(7)}))
+            if b != ("ok", H(wrapv(Foo(7)))): fail("deserialization-square", desc=desc, got=show(b))
+            for view, fn in (("serialization_schema", _ss), ("deserialization_schema", deserialization_schema)):
+                got = outcome(lambda: fn(H, with_schema=False)); want = outcome(lambda: fn(Href, with_schema=False))
+                if got != want: fail("schema-of-the-converted-class-differs-from-its-source/target", desc=desc, view=view, got=show(got), expected=show(want))
+        else:
+            a = outcome(lambda: serialize(tp, wrapv(Foo(7)), conversion=foo_to_int))
+            if a != ("ok", wrapv(7)): fail("serialization-square", desc=desc, got=show(a), want=wrapv(7))
+            b = outcome(lambda: deserialize(tp, wrapv(7), conversion=foo_from_int))
+            if b != ("ok", wrapv(Foo(7))): fail("deserialization-square", desc=desc, got=show(b))
+            ref = eval(sname.replace("U", "B"), {"B": Union[tuple(base_alts)], "List": List, "Optional": Optional, "Dict": Dict, "str": str})
+            for view, fn, c in (("serialization_schema", _ss, foo_to_int), ("deserialization_schema", deserialization_schema, foo_from_int)):
+                got = outcome(lambda: fn(tp, with_schema=False, conversion=c)); want = outcome(lambda: fn(ref, with_schema=False))
+                if got != want: fail("schema-of-the-converted-class-differs-from-its-source/target", desc=desc, view=view, got=show(got), expected=show(want))
     return {"evaluations": evaluations, "distinct_nontrivial": len(distinct),
-            "rule": "fresh wrapper classes with a deserializer S -> W and a serializer W -> S over six source types, registered or dynamic, 40% of the "
+            "rule": "method / property serializers (registered or dynamic) with overriding subclasses; dynamic / field conversions next to unsupported union alternatives (operations and schemas); "
+                    "fresh wrapper classes with a deserializer S -> W and a serializer W -> S over six source types, registered or dynamic, 40% of the "
                     "converters raising ValueError under catch_value_error, 30% of the registered ones with a second deserializer; every datum of a "
                     "per-source pool (valid and invalid); four-level class hierarchies with a serializer at the root and one (inherited or not) below it; "
                     "chains int -> S -> T with a catching outer converter and a catching or non-catching inner one; generic wrappers G[T] converted from T / List[T] / Optional[T] "
